@@ -2,6 +2,8 @@ package sched
 
 import (
 	"fmt"
+	"os"
+	"strings"
 
 	"github.com/mosaicnetworks/babble/src/node/state"
 	"verif/harness/ev"
@@ -53,6 +55,10 @@ func (x *Exec) Step(a Action) error {
 
 func (x *Exec) check() {
 	if x.C.Panic != "" {
+		if harnessPanic(x.C.Panic) {
+			fmt.Fprintln(os.Stderr, "HARNESS-ERROR: panic in harness code:\n"+x.C.Panic)
+			os.Exit(2)
+		}
 		k := "panic"
 		if !x.violKeys[k] {
 			x.violKeys[k] = true
@@ -207,4 +213,24 @@ func (x *Exec) FairSuffix(maxCycles int) SuffixResult {
 		res.Cycles = cyc + 1
 	}
 	return res
+}
+
+// harnessPanic: the frame that panicked is harness code, not babble code.
+func harnessPanic(stack string) bool {
+	lines := strings.Split(stack, "\n")
+	after := false
+	for _, l := range lines {
+		if strings.HasPrefix(l, "panic(") {
+			after = true
+			continue
+		}
+		if !after || !strings.HasPrefix(l, "\t") {
+			continue
+		}
+		if strings.Contains(l, "/runtime/") {
+			continue
+		}
+		return strings.Contains(l, "/verif/harness/")
+	}
+	return false
 }
